@@ -1357,6 +1357,13 @@ def coq_term(case, obs):
             fd = C.clist(sorted(obs["ncols"].items()), lambda p: f"({H.cstype(p[0])}, {p[1]}%nat)")
             parts.append(f"check_order {coq_names_dict(obs['names_dict'])} {fd} {C.clist(names, cs)} "
                          + C.clist(moved, lambda p: f"({cs(p[0])}, {p[1]}%nat)"))
+            # the same through the offsets of torch.cat(dim=1) (hcat_position): input column k of stype s moved
+            # output column col_position(s, k)
+            nd = dict(obs["names_dict"])
+            mv = [(a["stype"], nd[a["stype"]].index(a["col"]), a["moved"][0]) for a in obs["assoc"]
+                  if a.get("moved") and len(a["moved"]) == 1]
+            parts.append(f"check_position {fd} "
+                         + C.clist(mv, lambda m: f"(({H.cstype(m[0])}, {m[1]}%nat), {m[2]}%nat)"))
         data = obs["data"]
         zmat = lambda m: C.clist(m, lambda row: C.clist(row, C.cz))  # noqa: E731
         if "cat" in data:
